@@ -66,3 +66,31 @@ for p in sorted(per):
 out.append("")
 open(os.path.join(HERE, "notes", "_tables.md"), "w").write("\n".join(out))
 print("written notes/_tables.md (%d lines)" % len(out))
+
+
+def refresh_design():
+    """Replace the four generated tables inside DESIGN.md section 8 by the current ones."""
+    path = os.path.join(HERE, "DESIGN.md")
+    text = open(path).read()
+    tables = open(os.path.join(HERE, "notes", "_tables.md")).read().split("### ")
+    for title in ("Repairs committed", "Known findings", "Seeded changes", "Own sensitivity"):
+        fresh = [t for t in tables if t.startswith(title)][0].rstrip() + "\n"
+        start = text.index("#### " + title)
+        lines = text[start:].split("\n")
+        # the block = heading, blank line, table rows; ends at the first blank line after a table row
+        end_line = None
+        seen_row = False
+        for i, ln in enumerate(lines):
+            if ln.startswith("|"):
+                seen_row = True
+            elif seen_row and ln.strip() == "":
+                end_line = i
+                break
+        end = start + len("\n".join(lines[:end_line])) + 1
+        text = text[:start] + "#### " + fresh + text[end:]
+    open(path, "w").write(text)
+    print("DESIGN.md tables refreshed")
+
+
+if __name__ == "__main__":
+    refresh_design()
